@@ -429,6 +429,9 @@ def run(ctx: Ctx):
     # reconnect (plain, and with the link lost while a send is blocked) validated against DispatcherLoops (model checked in C04)
     from . import c04_trace
     c04_trace.check(ctx, wd, pmap, only_reconnect=True)
+    # the same promises over SECS-I, with both stations asking for the line at the same moment (the host yields)
+    from . import c17_txn
+    c17_txn.check_contention(ctx, wd, pmap)
     ctx.rule = ("scenarios = (callers 2-4, 1-2 requests each, counter start incl. wrap-around, optional reconnect) x peer behaviour "
                 "(link loss while a send is blocked on a full socket, reply order/lateness/omission, instant replies sent from inside the peer's receive of the request while the requesting thread is slow to resume, unsolicited primaries) x thread schedule (PCT depth 3 / random / fifo with line-level "
                 "preemption in the counter, queue and dispatcher code); non-trivial = at least two callers received replies")
